@@ -688,7 +688,7 @@ pub fn build_mirror(t: &Trial, pre_mem: &[Vec<u8>]) -> Result<Axecutor, String> 
 
 pub fn run_emu(t: &Trial, pre_mem: &[Vec<u8>]) -> EmuPost {
     let built = catch(|| build_mirror(t, pre_mem));
-    let mut ax = match built {
+    let ax = match built {
         Ok(Ok(ax)) => ax,
         Ok(Err(e)) => {
             return EmuPost {
@@ -706,6 +706,11 @@ pub fn run_emu(t: &Trial, pre_mem: &[Vec<u8>]) -> EmuPost {
             return EmuPost { result: EmuResult::Panic(p), gpr: t.gpr, rip: t.rip, flags: t.flags, xmm: t.xmm, fs: t.fs, gs: t.gs, ax: None }
         }
     };
+    step_existing(ax, t)
+}
+
+/// Steps a machine that already exists (fresh mirror or a free-running program machine) and reads its state back.
+pub fn step_existing(mut ax: Axecutor, t: &Trial) -> EmuPost {
     let _ = ax_x86::verif::take_rejection();
     let r = catch(|| block_on(ax.step()));
     let rej = ax_x86::verif::take_rejection();
